@@ -42,7 +42,9 @@ TEncode == /\ IsEv(l, "Encode") /\ kind = "c07"
 \* decoding returns an equal sequence followed by end-of-stream
 TDecode == /\ IsEv(l, "Decode") /\ kind = "c07"
            /\ IF ndec < Len(orig)
-              THEN Ev(l).res = "rec" /\ Ev(l).r = orig[ndec + 1]
+              THEN /\ Ev(l).res = "rec" /\ Ev(l).r = orig[ndec + 1]
+                   \* Result.Equal, the library's notion of equality, agrees: equal to the original, unequal once one field differs
+                   /\ ("equal" \in DOMAIN Ev(l) => Ev(l).equal /\ ~Ev(l).mutant_equal)
               ELSE Ev(l).res = "eof"
            /\ ndec' = ndec + 1
            /\ l' = l + 1 /\ UNCHANGED <<kind, hdr, orig>>
